@@ -559,9 +559,202 @@ func c08EncoderState(c *Ctx, p *Program) {
 	c.Table("tables/animstate.txt")
 	c08CommitState(c, p, rows)
 	c08CanvasProvenance(c, p)
+	c08CandidateConsistency(c, p)
+	c08FrameNormalise(c, p)
 	for _, r := range rows {
 		if !r.used {
 			c.Fail("stale-table", "animstate:"+r.typ+":"+r.loc, "", "reviewed line no longer matches anything (remove it): "+r.typ+" "+r.loc)
 		}
 	}
+}
+
+// E4 candidate consistency: a sub-frame candidate is described by the rectangle of pixels that
+// differ between some reference canvas and the current picture (findChangedRect(ref, curr)). The
+// predicate that allows alpha blending for that candidate must be asked about the same reference
+// canvas - asking it about another canvas lets blending through for pixels the player will not
+// find on its canvas.
+func c08CandidateConsistency(c *Ctx, p *Program) {
+	pk := p.SSAPkg("animation")
+	if pk == nil {
+		c.AnchorMissing("candidate-consistency", "package animation")
+		return
+	}
+	isPred := func(f *ssa.Function) bool {
+		return f != nil && (f.Name() == "isLosslessBlendingPossible" || f.Name() == "isLossyBlendingPossible")
+	}
+	canvasKey := func(fn *ssa.Function, v ssa.Value) string {
+		switch x := v.(type) {
+		case *ssa.UnOp:
+			if x.Op == token.MUL {
+				if f, ok := recvFieldOf(fn, x.X); ok {
+					return "encoder." + f
+				}
+				if fa, ok := x.X.(*ssa.FieldAddr); ok {
+					return "field." + fieldName(fa.X.Type(), fa.Field)
+				}
+			}
+		case *ssa.Call:
+			if cal := x.Call.StaticCallee(); cal != nil {
+				return fmt.Sprintf("%s@%s", cal.Name(), p.Pos(x.Pos()))
+			}
+		case *ssa.Parameter:
+			return "param." + x.Name()
+		}
+		return v.Name()
+	}
+	// refsOfRect: the reference canvases of the findChangedRect calls a rectangle derives from
+	var refsOfRect func(fn *ssa.Function, v ssa.Value, seen map[ssa.Value]bool, depth int, out map[string]bool)
+	refsOfRect = func(fn *ssa.Function, v ssa.Value, seen map[ssa.Value]bool, depth int, out map[string]bool) {
+		if seen[v] || depth > 30 {
+			return
+		}
+		seen[v] = true
+		switch x := v.(type) {
+		case *ssa.Call:
+			cal := x.Call.StaticCallee()
+			if cal != nil && cal.Name() == "findChangedRect" && len(x.Call.Args) == 2 {
+				out[canvasKey(fn, x.Call.Args[0])] = true
+				return
+			}
+			for _, a := range x.Call.Args {
+				if _, isStruct := a.Type().Underlying().(*types.Struct); isStruct {
+					refsOfRect(fn, a, seen, depth+1, out)
+				}
+			}
+		case *ssa.Phi:
+			for _, e := range x.Edges {
+				refsOfRect(fn, e, seen, depth+1, out)
+			}
+		case *ssa.UnOp:
+			if al, ok := x.X.(*ssa.Alloc); ok && x.Op == token.MUL {
+				for _, u := range *al.Referrers() {
+					if st, ok := u.(*ssa.Store); ok && st.Addr == ssa.Value(al) {
+						refsOfRect(fn, st.Val, seen, depth+1, out)
+					}
+				}
+			}
+		case *ssa.Parameter:
+			idx := -1
+			for i, prm := range fn.Params {
+				if prm == x {
+					idx = i
+				}
+			}
+			if n := p.CallGraph().Nodes[fn]; n != nil && idx >= 0 {
+				for _, e := range n.In {
+					if e.Site != nil && idx < len(e.Site.Common().Args) {
+						refsOfRect(e.Caller.Func, e.Site.Common().Args[idx], seen, depth+1, out)
+					}
+				}
+			}
+		}
+	}
+	n := 0
+	for _, fn := range p.SrcFuncs() {
+		if fn.Pkg != pk {
+			continue
+		}
+		idx := 0
+		for _, b := range fn.Blocks {
+			for _, in := range b.Instrs {
+				call, ok := in.(*ssa.Call)
+				if !ok || !isPred(call.Call.StaticCallee()) || len(call.Call.Args) < 3 {
+					continue
+				}
+				idx++
+				n++
+				key := fmt.Sprintf("%s->%s#%d", fn.Name(), call.Call.StaticCallee().Name(), idx)
+				refs := map[string]bool{}
+				refsOfRect(fn, call.Call.Args[2], map[ssa.Value]bool{}, 0, refs)
+				asked := canvasKey(fn, call.Call.Args[0])
+				// a parameter of a helper: compare with what the callers pass
+				askedSet := map[string]bool{asked: true}
+				if prm, ok := call.Call.Args[0].(*ssa.Parameter); ok {
+					askedSet = map[string]bool{}
+					pi := -1
+					for i, q := range fn.Params {
+						if q == prm {
+							pi = i
+						}
+					}
+					if nd := p.CallGraph().Nodes[fn]; nd != nil && pi >= 0 {
+						for _, e := range nd.In {
+							if e.Site != nil && pi < len(e.Site.Common().Args) {
+								askedSet[canvasKey(e.Caller.Func, e.Site.Common().Args[pi])] = true
+							}
+						}
+					}
+				}
+				var rs, as []string
+				for r := range refs {
+					rs = append(rs, r)
+				}
+				for a := range askedSet {
+					as = append(as, a)
+				}
+				sort.Strings(rs)
+				sort.Strings(as)
+				c.Func(FnName(fn))
+				okc := len(rs) > 0 && strings.Join(rs, ",") == strings.Join(as, ",")
+				// a helper shared by several candidates: every (rect source, asked canvas) pairing must agree,
+				// which the set comparison above only establishes when each set is a singleton
+				if okc && len(rs) > 1 {
+					okc = false
+				}
+				c.Check(okc, "candidate-consistency", key, p.Pos(call.Pos()),
+					"the blending predicate is asked about the canvas the candidate's rectangle was computed against ("+strings.Join(rs, ",")+")",
+					fmt.Sprintf("the rectangle of this candidate comes from findChangedRect(%s, ...) but the blending predicate is asked about %s: blending can be chosen for pixels that differ on the canvas the player will actually have", strings.Join(rs, " / "), strings.Join(as, " / ")))
+			}
+		}
+	}
+	c.Floor("candidate-consistency", n, 4)
+}
+
+// E5 frame normalisation: the encoder clones, compares and scans canvases through their Pix
+// slices as tightly packed buffers. The one place where a caller's image can be adopted without a
+// copy (a conversion function returning its type-asserted argument) must be guarded by tests of the
+// image's Stride and of its origin.
+func c08FrameNormalise(c *Ctx, p *Program) {
+	pk := p.SSAPkg("animation")
+	if pk == nil {
+		return
+	}
+	n := 0
+	for _, fn := range p.SrcFuncs() {
+		if fn.Pkg != pk || fn.Blocks == nil || len(fn.Params) != 1 || !types.IsInterface(fn.Params[0].Type()) || fn.Signature.Results().Len() != 1 || !isNRGBAPtr(fn.Signature.Results().At(0).Type()) {
+			continue
+		}
+		for _, b := range fn.Blocks {
+			ret, ok := b.Instrs[len(b.Instrs)-1].(*ssa.Return)
+			if !ok {
+				continue
+			}
+			// identity return: the result is the type-asserted parameter
+			v := ret.Results[0]
+			if ex, ok := v.(*ssa.Extract); ok {
+				v = ex.Tuple
+			}
+			ta, ok := v.(*ssa.TypeAssert)
+			if !ok || ta.X != ssa.Value(fn.Params[0]) {
+				continue
+			}
+			n++
+			// conditions dominating the return
+			fields := map[string]bool{}
+			for _, d := range fn.Blocks {
+				iff, ok := d.Instrs[len(d.Instrs)-1].(*ssa.If)
+				if !ok || !d.Dominates(b) || d == b {
+					continue
+				}
+				for f := range indexFields(p, fn, iff.Cond, 0, map[ssa.Value]bool{}) {
+					fields[f] = true
+				}
+			}
+			okg := fields["Stride"] && (fields["Rect"] || fields["Min"])
+			c.Func(FnName(fn))
+			c.Check(okg, "frame-normalise", fn.Name()+":identity-return", p.Pos(ret.Pos()), "the caller's image is adopted only when its stride and origin were tested",
+				fn.Name()+" returns the caller's *image.NRGBA unchanged without testing its Stride and origin: a sub-image view (row padding or non-zero origin) is then cloned and compared as if it were tightly packed, and the animation plays back other pixels than the ones added")
+		}
+	}
+	c.Floor("frame-normalise", n, 1)
 }
